@@ -72,8 +72,13 @@ func propertyFailsL(prop, op, res, lean string) (why string) {
 		if base == "reuse" && (hasPrefix(res, "panic") || hasPrefix(res, "blowup")) {
 			return "decoder panicked or over-allocated when the receiver had been used before: " + clip(res, 60)
 		}
+		if base == "decp" {
+			if exact := execOp("dec." + kind + " " + args); exact != res {
+				return "a decoder's result depends on memory behind the end of its input: " + clip(res, 30) + " vs " + clip(exact, 30)
+			}
+		}
 		switch base {
-		case "dec", "udec", "udecp", "cdec", "ccfbblock", "ccfbmetric":
+		case "dec", "decp", "udec", "udecp", "cdec", "ccfbblock", "ccfbmetric":
 			if hasPrefix(res, "panic") {
 				return "decoder panicked"
 			}
@@ -407,6 +412,9 @@ func propertyFailsL(prop, op, res, lean string) (why string) {
 			return twccOracle(NewR(args).H(), res[3:])
 		}
 	case "C14":
+		if base == "rembto" && hasPrefix(res, "mutated") {
+			return res
+		}
 		return rembOracle(base, kind, args, res)
 	case "C15":
 		if base == "enc" && kind == "XR" && isOK {
